@@ -177,6 +177,18 @@ Theorem trs_translate : forall F (FO : Carrier F), ring_carrier FO -> forall (t 
 Proof. exact @AlgebraTrsProofs.trs_translate. Qed.
 Print Assumptions trs_translate.
 
+(* the single-purpose constructors: Position(p) translates, Scale(s) scales, Rotation(r) rotates *)
+Theorem trs_constructors : forall F (FO : Carrier F), ring_carrier FO -> forall p s (r : Quat.Quaternion F) v,
+  Trs.TRS_Transform (Trs.Position p) v = v3_add v p /\
+  Trs.TRS_Transform (Trs.Scale s) v = v3_mult_by_vector s v /\
+  Trs.TRS_Transform (Trs.Rotation r) v = Quat.Quaternion_Rotate r v.
+Proof.
+  intros F FO RC p s r v.
+  exact (conj (AlgebraTrsProofs.trs_position_only RC p v)
+        (conj (AlgebraTrsProofs.trs_scale_only RC s v) (AlgebraTrsProofs.trs_rotation_only RC r v))).
+Qed.
+Print Assumptions trs_constructors.
+
 (* mesh level (hand-written model of the Position array, tied to modeling.Mesh by the correspondence
    check): the i-th position of the result is the transform of the i-th position, nothing added or lost *)
 Theorem mesh_ops_pointwise : forall F (f : vec3 F -> vec3 F) (ps : list (vec3 F)) d i, i < length ps ->
